@@ -58,6 +58,25 @@ func execCall(st *state, args []string) []string {
 			return []string{resErr(err)}
 		}
 		return []string{"res ok", "v5 " + canon.Dump(p)}
+	case "v5r":
+		// the same, decoding into ONE packet value kept across calls (a caller that recycles its packet): the result is the
+		// datagram's header and records and nothing of what the value held before
+		if len(args) != 2 {
+			return []string{"bad-op"}
+		}
+		d, ok := unhex(args[1])
+		if !ok {
+			return []string{"bad-op"}
+		}
+		p, _ := st.extra["v5r"].(*netflowlegacy.PacketNetFlowV5)
+		if p == nil {
+			p = &netflowlegacy.PacketNetFlowV5{}
+			st.extra["v5r"] = p
+		}
+		if err := netflowlegacy.DecodeMessageVersion(bytes.NewBuffer(d), p); err != nil {
+			return []string{resErr(err)}
+		}
+		return []string{"res ok", "v5 " + canon.Dump(*p)}
 	}
 	if f, ok := calls[args[0]]; ok {
 		return f(st, args[1:])
